@@ -1590,7 +1590,9 @@ class CParser:
             case "PPPRAGMA" | "_PRAGMA":
                 return self._parse_pppragma_directive()
             case "_STATIC_ASSERT":
-                return self._parse_static_assert()
+                # A single node, so that it can also be stored as the
+                # sub-statement of a label or loop.
+                return self._parse_static_assert()[0]
             case _:
                 return self._parse_expression_statement()
 
